@@ -225,7 +225,7 @@ MUTANTS += [
 
 MUTANTS += [
     dict(id='c08-percentile-axis-none', props=['C08'], file=LIM,
-         old="                p25, median, p75 = np.percentile(der, [25,50, 75], axis=0)", new="                p25, median, p75 = np.percentile(der, [25,50, 75], axis=None)"),
+         old="                p25, median, p75 = percentile(der, [25, 50, 75], axis=0)", new="                p25, median, p75 = percentile(der, [25, 50, 75], axis=None)"),
     dict(id='c08-nanmin-whole-array', props=['C08'], file=LIM,
          old="        min_errors = np.nanmin(errors, axis=0)\n", new="        min_errors = np.nanmin(errors, axis=0)\n        min_errors[:] = np.nanmin(min_errors)\n"),
     dict(id='c08-kwds-dropped', props=['C08'], file=CORE,
